@@ -427,7 +427,14 @@ func report(prop, tier string, seed uint64, pi propInfo, lines []line, start tim
 			}
 			keep := filepath.Join(rdir, filepath.Base(l.Replay))
 			min := strings.TrimSuffix(keep, ".json") + ".min.json"
-			os.Rename(l.Replay, keep)
+			if err := os.Rename(l.Replay, keep); err != nil {
+				// other file system: copy
+				if b, rerr := os.ReadFile(l.Replay); rerr == nil && os.WriteFile(keep, b, 0644) == nil {
+					os.Remove(l.Replay)
+				} else {
+					keep = l.Replay
+				}
+			}
 			final = keep
 			// minimise in a fresh process (bounded)
 			cmd := exec.Command(bin, "-minimise", keep, "-minout", min, "-budget", "60s")
